@@ -31,12 +31,8 @@ func restoreIndex(rootGoitPath, path string, index *store.Index, tree *object.Tr
 		// restore index
 		if isNodeFound { // if the file is updated
 			// change hash
-			isUpdated, err := index.Update(rootGoitPath, node.Hash, []byte(path))
-			if err != nil {
+			if _, err := index.Update(rootGoitPath, node.Hash, []byte(path)); err != nil {
 				return fmt.Errorf("fail to update index: %w", err)
-			}
-			if !isUpdated {
-				return errors.New("fail to restore index")
 			}
 		} else { // if the file is newly added
 			// delete entry
@@ -46,12 +42,8 @@ func restoreIndex(rootGoitPath, path string, index *store.Index, tree *object.Tr
 		}
 	} else { // if the path is not registered in the index,
 		if isNodeFound { // if the file is deleted
-			isUpdated, err := index.Update(rootGoitPath, node.Hash, []byte(path))
-			if err != nil {
+			if _, err := index.Update(rootGoitPath, node.Hash, []byte(path)); err != nil {
 				return fmt.Errorf("fail to update index: %w", err)
-			}
-			if !isUpdated {
-				return errors.New("fail to restore index")
 			}
 		} else {
 			return fmt.Errorf("error: pathspec '%s' did not match any file(s) known to goit", path)
